@@ -8,7 +8,8 @@ EXPL = ("R01.1 each appended entry is moved (drop-flag aware linearity) into exa
         "once on every path; R01.3 no loop-exit condition of the drain loop derives from the stream's result, the consumer writes "
         "only integer counters and never re-inserts; R01.4 who-may-call: EntryIoStream::next/flush on the receiver's stream only "
         "from the consumer / the in-band error report (control-dependent on the Validation arm and the NoSubscriber test) / the "
-        "receiver's flush; one spawn, receiver not Clone; R01.5 boxed/blanket forwarding is linear. Not decided: cross-thread FIFO "
+        "receiver's flush; one spawn, receiver not Clone; R01.6 every explicit panic reachable from the writer thread's entry is "
+        "decided by compile-time constants (a stream error or a configuration value cannot kill the thread); R01.5 boxed/blanket forwarding is linear. Not decided: cross-thread FIFO "
         "(ArrayQueue semantics, scheduler).")
 
 BG = "metrique_writer"
@@ -296,6 +297,61 @@ def run(ctx):
         if adt:
             cl = F.impls_of("core::clone::Clone", adt.rsplit("::", 1)[-1])
             ctx.check(not cl, "R01.4", adt + "#receiver-not-Clone", "", "the receiver type implements Clone (two consumers could pop from the ring)")
+    # ---------------------------------------------------------------- R01.6 an entry's error cannot kill the writer thread
+    # every explicit panic reachable from the writer thread's entry is decided by compile-time constants (e.g. the rate limiter's
+    # `assert!(interval >= 1s)` with a literal interval); one whose condition reads configuration or the error would turn a stream
+    # error into a dead writer: later entries are accepted by append() and never written
+    from rules.c05 import find_thread_entries
+    from rules.c12 import controlling_switches as _ctl
+    reach_, work_ = {}, [(cb_, 0) for cs_, cb_ in find_thread_entries(F, BG) if in_bg(F, cb_) or True]
+    while work_:
+        b_, dep_ = work_.pop()
+        if b_.def_ in reach_ or dep_ > 5:
+            continue
+        reach_[b_.def_] = b_
+        for c in b_.calls():
+            for sb in local_callee_bodies(F, c) + closure_args(F, c):
+                if sb.crate == BG:
+                    work_.append((sb, dep_ + 1))
+    bg_reach = [b_ for b_ in reach_.values() if in_bg(F, b_)]
+    ctx.floor("R01.6", "bodies reachable from the writer thread's entry", len(bg_reach), 8)
+
+    def const_only(b_, op, depth=4, seen=None):
+        seen = seen if seen is not None else set()
+        for x in Prov(b_).operand(op):
+            if x[0] == "const" or x[0] == "via" or x[0] == "op":
+                continue
+            if x[0] in ("call", "callf") and depth > 0 and (b_.def_, x[1]) not in seen:
+                seen.add((b_.def_, x[1]))
+                t = b_.term(x[1])
+                if all(const_only(b_, a, depth - 1, seen) for a in t.get("args", [])):
+                    continue
+            if x[0] == "agg":
+                continue
+            return False
+        return True
+    npan = 0
+    for b_ in bg_reach:
+        for c in b_.calls():
+            if not (c.is_in("core::panicking", "panic_fmt", "panic", "panic_display", "panic_str", "unreachable_display") or
+                    (c.name in ("unwrap", "expect") and ("Option" in c.def_ or "Result" in c.def_))):
+                continue
+            npan += 1
+            if c.name in ("unwrap", "expect"):
+                okp = const_only(b_, c.args[0]) if c.args else False
+                why = "unwraps a runtime value"
+            else:
+                # the switch that decides the panic: one of its sides can only end in the panic (no Return reachable from it); the
+                # branches that merely select the arm the assertion lives in are not what makes it fire
+                rets_ = set(b_.return_blocks())
+                ctl = [(i, t) for i, t, yes, no in _ctl(b_, c.bb) if any(c.bb in b_.reachable(s_) and not (b_.reachable(s_) & rets_) for s_ in b_.succ(i))]
+                okp = bool(ctl) and all(const_only(b_, t["discr"]) for i, t in ctl)
+                why = "its condition depends on runtime state (configuration, the error, counters)"
+            ctx.check(okp, "R01.6", fnkey(b_) + "#panic-decided-at-compile-time@%d" % npan, loc(b_, c.bb),
+                      "a panic reachable on the writer thread is not decided by constants (%s): when it fires the thread dies, append() keeps "
+                      "accepting entries and none of them is ever handed to the stream" % why,
+                      "condition built from literals only")
+    ctx.floor("R01.6", "explicit panic sites on the writer thread", npan, 1)
     # ---------------------------------------------------------------- R01.5 boxed / blanket forwarding
     core = "metrique_writer_core"
     fw = []
